@@ -37,7 +37,7 @@ let () =
          | "META" ->
            let nd = ni () in
            let vg = List.init nd (fun _ ->
-               let kind = (match ni () with 0 -> KScalar | 1 -> KVec3 | 2 -> KUnit3 | _ -> KQuat) in
+               let kind = (match ni () with 0 -> KScalar | 1 -> KVec3 | 2 -> KUnit3 | 3 -> KQuat | k -> KVecN (nat_of_int (k - 100))) in
                let per = nb () in let period = nf () in let sigma = nf () in let width = nf () in
                let gper = nb () in let expand = nb () in let hlo = nb () in let hup = nb () in
                let lower = nf () in let upper = nf () in let nx = ni () in
@@ -46,7 +46,7 @@ let () =
                 { b_lower = lower; b_upper = upper; b_nx = z_of_int nx })) in
            let sigmas = List.map (fun ((_, sg), _) -> sg) vg in
            let vg = List.map (fun ((v, _), b) -> (v, b)) vg in
-           let ncomp = List.map (fun (v, _) -> match v.v_kind with KScalar -> 1 | KQuat -> 4 | _ -> 3) vg in
+           let ncomp = List.map (fun (v, _) -> match v.v_kind with KScalar -> 1 | KQuat -> 4 | KVecN n -> (let rec cnt = function O -> 0 | S m -> 1 + cnt m in cnt n) | _ -> 3) vg in
            let weight = nf () in let hw = nf () in let freq = ni () in let gfreq = ni () in
            let ug = nb () in let keep = nb () in let wt = nb () in let bt = nf () in let kb = nf () in
            let sz = nb () in let dump = nb () in
